@@ -129,6 +129,7 @@ func (r *histRun) devSnapshot() map[string]string {
 var emptyLeaves = map[string]bool{}
 
 func init() {
+	fixture.PresenceContainers = presenceContainers
 	for _, name := range []string{"base+mk+extra+pres+choice"} {
 		for _, l := range poolFor(name) {
 			if l.Kind == "empty" {
